@@ -349,6 +349,10 @@ pub fn replay(case: &Value) -> Vec<Violation> {
         }
         return vec![];
     }
+    if let Some(p) = case.get("position") {
+        let g = |k: &str| p[k].as_u64().unwrap_or(0) as usize;
+        return position_case(g("text"), g("n_valid"), g("slot"), g("name"), p["zod"].as_bool().unwrap_or(false)).0.into_iter().collect();
+    }
     if let Some(n) = case["cycle"].as_u64() {
         return cycle_case(n as usize, case["visualize"].as_bool().unwrap_or(false), case["mode"].as_str().unwrap_or("none")).into_iter().collect();
     }
@@ -357,6 +361,60 @@ pub fn replay(case: &Value) -> Vec<Violation> {
         Some((zod, m)) => vec![mk(&c, "panic", format!("panicked ({} mode): {}", if zod { "zod" } else { "none" }, m))],
         None => vec![],
     }
+}
+
+pub const BAD_TEXTS: [&str; 4] = [
+    "fn broken( {\n",
+    "Dear reader, this is a page template and not Rust at all.\n",
+    "#[tauri::command]\npub fn half_written( -> i32 { 0 \n",
+    "pub const TABLE: [(&str, &str); 1] = [(\"k\", \"漢字😀é\" \"oops漢字\")];\n",
+];
+pub const BAD_NAMES: [&str; 4] = ["src/bad.rs", "src/a.rs", "src/zz_last.rs", "src/templates/page.rs"];
+
+/// An unparsable file among `n_valid` valid ones (each with a command that takes a channel and a
+/// function that emits an event - everything whose source position is looked up after parsing),
+/// created as the `slot`-th file: whether it is walked before, between or after the valid files
+/// depends on the directory order, which the harness reads back. Returns (violation, the bad
+/// file came after at least one valid file in directory order).
+pub fn position_case(text: usize, n_valid: usize, slot: usize, name: usize, zod: bool) -> (Option<Violation>, bool) {
+    let valid_file = |i: usize| {
+        (
+            format!("src/m{}.rs", i),
+            format!(
+                "{}use tauri::{{AppHandle, Emitter}};\nuse tauri::ipc::Channel;\n#[derive(Clone, Serialize, Deserialize)]\npub struct Solid{i} {{ pub a: i32 }}\n#[tauri::command]\npub fn solid_{i}(s: Solid{i}, on_step: Channel<Solid{i}>) -> Solid{i} {{ let _ = on_step; s }}\npub fn tell_{i}(app: &AppHandle, s: Solid{i}) {{ app.emit(\"told-{i}\", s).unwrap(); }}\n",
+                gen::PRELUDE,
+                i = i
+            ),
+        )
+    };
+    let valid: Vec<(String, String)> = (0..n_valid).map(valid_file).collect();
+    let mut files = valid.clone();
+    files.insert(slot.min(n_valid), (BAD_NAMES[name % BAD_NAMES.len()].to_string(), BAD_TEXTS[text % BAD_TEXTS.len()].to_string()));
+    let project = Project { files, links: vec![] };
+    // directory order as the walk will see it
+    let after = {
+        let sb = Sandbox::new();
+        let _ = project.write_to(&sb.root);
+        let order: Vec<String> = std::fs::read_dir(sb.root.join("src")).map(|d| d.filter_map(|e| e.ok()).map(|e| e.file_name().to_string_lossy().to_string()).collect()).unwrap_or_default();
+        let bad_entry = BAD_NAMES[name % BAD_NAMES.len()].trim_start_matches("src/").split('/').next().unwrap_or("").to_string();
+        match order.iter().position(|n| *n == bad_entry) {
+            Some(p) => order[..p].iter().any(|n| n.starts_with('m') && n.ends_with(".rs")),
+            None => false,
+        }
+    };
+    let replay = json!({"position": {"text": text, "n_valid": n_valid, "slot": slot, "name": name, "zod": zod}});
+    let label = format!("unparsable {} (text #{}) created as file {} of {} valid files, {} mode", BAD_NAMES[name % BAD_NAMES.len()], text, slot, n_valid, if zod { "zod" } else { "none" });
+    let reference: BTreeMap<String, String> = run_lib_default(&Project { files: valid, links: vec![] }, &Cfg::mode(zod)).files.iter().map(|(k, v)| (k.clone(), strip_timestamp(v))).collect();
+    let r = run_lib_default(&project, &Cfg::mode(zod));
+    let fam = |v: Violation| v.field("family", "unparsable-file-position").field("file", BAD_NAMES[name % BAD_NAMES.len()].to_string());
+    if let LibStatus::Panic(m) = &r.status {
+        return (Some(fam(Violation::new("C15", "panic", format!("{}: {}", label, m), replay))), after);
+    }
+    let out: BTreeMap<String, String> = r.files.iter().map(|(k, v)| (k.clone(), strip_timestamp(v))).collect();
+    if out != reference {
+        return (Some(fam(Violation::new("C15", "bad-file-not-isolated", format!("{}: the output differs from the output of the valid files alone ({})", label, r.status_string()), replay))), after);
+    }
+    (None, after)
 }
 
 /// a reference cycle of `n` serde types through the real binary (unbounded recursion would abort)
@@ -660,6 +718,25 @@ pub fn run(tier: Tier) -> CheckResult {
         .collect();
     evaluations += bad_lines.len() as u64;
     all_v.extend(bres.into_iter().flatten());
+    // where an unparsable file sits among valid ones: every text x 1..3 valid files x every creation
+    // slot x four names x both modes; the directory order is read back and counted
+    let mut pos_cases: Vec<(usize, usize, usize, usize, bool)> = vec![];
+    for text in 0..BAD_TEXTS.len() {
+        for n_valid in 1..=3usize {
+            for slot in 0..=n_valid {
+                for name in 0..BAD_NAMES.len() {
+                    for zod in [false, true] {
+                        pos_cases.push((text, n_valid, slot, name, zod));
+                    }
+                }
+            }
+        }
+    }
+    let pres: Vec<(Option<Violation>, bool)> = pos_cases.par_iter().map(|(t, n, sl, nm, z)| position_case(*t, *n, *sl, *nm, *z)).collect();
+    evaluations += pos_cases.len() as u64;
+    let bad_after_valid = pres.iter().filter(|(_, a)| *a).count() as u64;
+    let bad_before_all = pres.len() as u64 - bad_after_valid;
+    all_v.extend(pres.into_iter().filter_map(|(v, _)| v));
     // reference cycles of 1..6 serde types, with and without the dependency visualisation, through
     // the real binary (unbounded recursion would abort the process)
     let cyc: Vec<(usize, bool, &str)> = (1..=6usize).flat_map(|n| [(n, false, "none"), (n, true, "none"), (n, true, "zod")]).collect();
@@ -735,6 +812,11 @@ pub fn run(tier: Tier) -> CheckResult {
     res.coverage.set("cases_that_parse_as_rust", parsed_as_rust);
     res.coverage.set("distinct_nontrivial", parsed_as_rust + corpus_done as u64);
     res.coverage.set("truncations", truncs.len() as u64);
+    res.coverage.set("unparsable_file_walked_after_a_valid_one", bad_after_valid);
+    res.coverage.set("unparsable_file_walked_first", bad_before_all);
+    if bad_after_valid == 0 || bad_before_all == 0 {
+        res.machinery_errors.push(format!("unparsable-file-position family did not cover both directory orders (after a valid file: {}, first: {})", bad_after_valid, bad_before_all));
+    }
     res.coverage.set("corpus_files", corpus_done as u64);
     res.coverage.set("corpus_repo_files", repo_files as u64);
     res.coverage.set("subprocess_runs", subprocess_runs);
@@ -746,7 +828,7 @@ pub fn run(tier: Tier) -> CheckResult {
         {"TypeVariant": {"ty": "for<'a> fn(&'a str) -> &'a str", "site": "event", "depth": 5}},
         {"corpus": "/repo/src/analysis/mod.rs"}
     ]));
-    res.coverage.set("rule", format!("(i) every string of <= {} letters over a 21-letter alphabet (ASCII, space, 2/3/4-byte characters, escaped quote, escaped backslash, parentheses, comma, '=', and the words the scanners look for) injected at 9 attribute-string positions; 40 raw attribute token forms (empty, missing values, non-literal values, duplicates, raw strings, cfg_attr) on fields, structs, variants, parameters and fns; (ii) 14 odd identifiers in 8 roles; (iii) 40 exotic syn::Type forms (incl. path segments with identifier characters that are neither letters nor digits) at the five sites wrapped to depth 0..5 in process, four non-ASCII project type names at every constructor position (map key / value, each tuple element, set element, Result arms, nested once more) of the five sites, every event name of <= 3 characters over letters, digits and the separators (adjacent, leading and trailing separators included), every arity 0..4 of emit / emit_to / emit_filter x 3 forms of the name argument x 5 receiver forms, nesting depth up to {} in a subprocess; an item-shape zoo (tuple/unit/generic structs, data-carrying and tagged enums, unions, trait and impl methods, pattern parameters, qualifiers, emit calls of every arity and payload expression); (iv) every .rs file under /repo{} as single-file projects through the real binary (batched, bisected on exit status outside {{0,1}}), every line-boundary truncation of tests/fixtures next to a valid file; unparsable files whose offending line holds 0..120 characters of 2 / 3 / 4 bytes before the error and 0 / 40 / 100 after it; reference cycles of 1..6 serde types with and without the dependency visualisation through the real binary; oracle: no panic (in process: catch_unwind, re-confirmed through the binary), exit status in {{0,1}}, and an unparsable file leaves the output of the valid file unchanged.", 3, if tier == Tier::Quick { 256 } else { 2000 }, if tier == Tier::Thorough { " and every .rs file in ~/.cargo/registry/src" } else { "" }));
+    res.coverage.set("rule", format!("(i) every string of <= {} letters over a 21-letter alphabet (ASCII, space, 2/3/4-byte characters, escaped quote, escaped backslash, parentheses, comma, '=', and the words the scanners look for) injected at 9 attribute-string positions; 40 raw attribute token forms (empty, missing values, non-literal values, duplicates, raw strings, cfg_attr) on fields, structs, variants, parameters and fns; (ii) 14 odd identifiers in 8 roles; (iii) 40 exotic syn::Type forms (incl. path segments with identifier characters that are neither letters nor digits) at the five sites wrapped to depth 0..5 in process, four non-ASCII project type names at every constructor position (map key / value, each tuple element, set element, Result arms, nested once more) of the five sites, every event name of <= 3 characters over letters, digits and the separators (adjacent, leading and trailing separators included), every arity 0..4 of emit / emit_to / emit_filter x 3 forms of the name argument x 5 receiver forms, nesting depth up to {} in a subprocess; an item-shape zoo (tuple/unit/generic structs, data-carrying and tagged enums, unions, trait and impl methods, pattern parameters, qualifiers, emit calls of every arity and payload expression); (iv) every .rs file under /repo{} as single-file projects through the real binary (batched, bisected on exit status outside {{0,1}}), every line-boundary truncation of tests/fixtures next to a valid file; unparsable files whose offending line holds 0..120 characters of 2 / 3 / 4 bytes before the error and 0 / 40 / 100 after it; four unparsable texts under four file names created before, between and after 1..3 valid files that each hold a command with a channel and an emitting function (the directory order is read back: both 'walked first' and 'walked after a valid file' must occur); reference cycles of 1..6 serde types with and without the dependency visualisation through the real binary; oracle: no panic (in process: catch_unwind, re-confirmed through the binary), exit status in {{0,1}}, and an unparsable file leaves the output of the valid file unchanged.", 3, if tier == Tier::Quick { 256 } else { 2000 }, if tier == Tier::Thorough { " and every .rs file in ~/.cargo/registry/src" } else { "" }));
     res.assumptions = vec!["totality is claimed only over these finite sets".into()];
     res
 }
